@@ -46,10 +46,10 @@ func (r *vrng) pick(xs []string) string {
 
 // ---- tree description (shared with the Coq model through JSON) ----
 type vnode struct {
-	K string   `json:"k"`           // f d l i
-	D string   `json:"d,omitempty"` // file data, hex
-	E []vent   `json:"e,omitempty"` // directory entries, sorted bytewise by name
-	T *vnode   `json:"t,omitempty"` // what Stat sees through a symlink (nil = dangling)
+	K string `json:"k"`           // f d l i
+	D string `json:"d,omitempty"` // file data, hex
+	E []vent `json:"e,omitempty"` // directory entries, sorted bytewise by name
+	T *vnode `json:"t,omitempty"` // what Stat sees through a symlink (nil = dangling)
 }
 type vent struct {
 	N string `json:"n"`
@@ -57,9 +57,9 @@ type vent struct {
 }
 
 type vfileOut struct {
-	N string `json:"n"`
-	D string `json:"d"`           // hex; "-" = nil data (directory entry of the FS table)
-	Dir bool `json:"dir,omitempty"`
+	N   string `json:"n"`
+	D   string `json:"d"` // hex; "-" = nil data (directory entry of the FS table)
+	Dir bool   `json:"dir,omitempty"`
 }
 
 type vrec struct {
@@ -80,6 +80,9 @@ type vrec struct {
 	Runes   []int      `json:"runes,omitempty"`
 	Letter  []bool     `json:"letter,omitempty"`
 	In      []vfileOut `json:"in,omitempty"`
+	MFiles  []mfFile   `json:"mfiles,omitempty"` // multi-file packages: what LoadDirectives sees, in call order
+	Vars    []mfVar    `json:"vars,omitempty"`
+	Order   string     `json:"order,omitempty"`
 	RefDir  bool       `json:"refdir,omitempty"`  // directive stream: the reference scanner sees a directive
 	RefErr  int        `json:"referr,omitempty"`  // 0 ok, 1 invalid quoted string, 2 quoted string followed by a non-space
 	RefPats []string   `json:"refpats,omitempty"` // reference parse (copy of go/build parseGoEmbed)
@@ -813,6 +816,123 @@ func normSpaces(text string) string {
 	return b.String()
 }
 
+// ---- multi-file packages for LoadDirectives ----
+type mfSpec struct {
+	Names []string `json:"names"`
+	Doc   []string `json:"doc"` // comment texts
+}
+type mfDecl struct {
+	Doc   []string `json:"doc"`
+	Specs []mfSpec `json:"specs"`
+}
+type mfFile struct {
+	Name  string   `json:"name"`
+	Imp   bool     `json:"imp"`
+	Decls []mfDecl `json:"decls"`
+	src   string
+}
+type mfVar struct {
+	Name  string     `json:"name"`
+	Files []vfileOut `json:"files"`
+}
+
+func loadClass(err error) int {
+	if err == nil {
+		return 0
+	}
+	s := err.Error()
+	switch {
+	case strings.Contains(s, "misplaced go:embed directive"):
+		return 20
+	case strings.Contains(s, "invalid //go:embed"):
+		return 21
+	case strings.Contains(s, "cannot apply to multiple vars"):
+		return 22
+	case strings.Contains(s, "only allowed in Go files that import"):
+		return 23
+	}
+	return errClass(err)
+}
+
+// one generated file: imports embed or not, a few var declarations
+func (g *gen) mfFile(idx int, forceDirective bool) mfFile {
+	r := g.r
+	f := mfFile{Name: fmt.Sprintf("f%d.go", idx), Imp: r.n(10) < 8}
+	single := []string{"a.txt", "b.txt", "d/c.txt", "*.bin", "\"a.txt\"", "`b.txt`"}
+	multi := []string{"d", "*.txt", "all:d", "a.txt b.txt", "d/c.txt a.txt"}
+	var body strings.Builder
+	usesFS := false
+	nd := 1 + r.n(3)
+	for k := 0; k < nd; k++ {
+		name := fmt.Sprintf("v%d_%d", idx, k)
+		kind := r.n(20)
+		if kind >= 12 {
+			kind = []int{0, 1, 3, 5, 8, 9, 10, 1}[kind-12]
+		}
+		if forceDirective && k == 0 {
+			kind = 1 + r.n(3)
+		}
+		pat := single[r.n(len(single))]
+		typ := []string{"string", "[]byte"}[r.n(2)]
+		if f.Imp && r.n(3) == 0 {
+			pat = multi[r.n(len(multi))]
+			typ = "embed.FS"
+		}
+		if typ == "embed.FS" {
+			usesFS = true
+		}
+		dir := "//go:embed " + pat
+		switch kind {
+		case 0:
+			body.WriteString("var " + name + " int\n\n")
+			f.Decls = append(f.Decls, mfDecl{Doc: []string{}, Specs: []mfSpec{{Names: []string{name}, Doc: []string{}}}})
+		case 1, 2:
+			body.WriteString(dir + "\nvar " + name + " " + typ + "\n\n")
+			f.Decls = append(f.Decls, mfDecl{Doc: []string{dir}, Specs: []mfSpec{{Names: []string{name}, Doc: []string{}}}})
+		case 3, 4:
+			body.WriteString("var (\n\t" + dir + "\n\t" + name + " " + typ + "\n)\n\n")
+			f.Decls = append(f.Decls, mfDecl{Doc: []string{}, Specs: []mfSpec{{Names: []string{name}, Doc: []string{dir}}}})
+		case 5:
+			body.WriteString("var (\n\t" + name + "m int\n\t" + dir + "\n\t" + name + " " + typ + "\n)\n\n")
+			f.Decls = append(f.Decls, mfDecl{Doc: []string{}, Specs: []mfSpec{{Names: []string{name + "m"}, Doc: []string{}}, {Names: []string{name}, Doc: []string{dir}}}})
+		case 6:
+			body.WriteString(dir + "\nvar (\n\t" + name + " " + typ + "\n\t" + name + "m int\n)\n\n")
+			f.Decls = append(f.Decls, mfDecl{Doc: []string{dir}, Specs: []mfSpec{{Names: []string{name}, Doc: []string{}}, {Names: []string{name + "m"}, Doc: []string{}}}})
+		case 7:
+			body.WriteString(dir + "\nvar " + name + ", " + name + "b " + typ + "\n\n")
+			f.Decls = append(f.Decls, mfDecl{Doc: []string{dir}, Specs: []mfSpec{{Names: []string{name, name + "b"}, Doc: []string{}}}})
+		case 8:
+			c := "// go:embed is described in package embed"
+			body.WriteString(c + "\nvar " + name + " int\n\n")
+			f.Decls = append(f.Decls, mfDecl{Doc: []string{c}, Specs: []mfSpec{{Names: []string{name}, Doc: []string{}}}})
+		case 9:
+			if f.Imp {
+				body.WriteString("//go:embed a.txt\n//go:embed b.txt\nvar " + name + " embed.FS\n\n")
+				f.Decls = append(f.Decls, mfDecl{Doc: []string{"//go:embed a.txt", "//go:embed b.txt"}, Specs: []mfSpec{{Names: []string{name}, Doc: []string{}}}})
+				usesFS = true
+			} else {
+				body.WriteString("// a plain comment\n" + dir + "\nvar " + name + " " + typ + "\n\n")
+				f.Decls = append(f.Decls, mfDecl{Doc: []string{"// a plain comment", dir}, Specs: []mfSpec{{Names: []string{name}, Doc: []string{}}}})
+			}
+		case 10:
+			body.WriteString("var " + name + " = 1\n\n")
+			f.Decls = append(f.Decls, mfDecl{Doc: []string{}, Specs: []mfSpec{{Names: []string{name}, Doc: []string{}}}})
+		default:
+			body.WriteString("//go:embed\nvar " + name + " " + typ + "\n\n")
+			f.Decls = append(f.Decls, mfDecl{Doc: []string{"//go:embed"}, Specs: []mfSpec{{Names: []string{name}, Doc: []string{}}}})
+		}
+	}
+	imp := ""
+	_ = usesFS
+	if f.Imp {
+		imp = "import \"embed\"\n\n"
+		body.WriteString("var _ embed.FS\n")
+		f.Decls = append(f.Decls, mfDecl{Doc: []string{}, Specs: []mfSpec{{Names: []string{"_"}, Doc: []string{}}}})
+	}
+	f.src = "package p\n\n" + imp + body.String()
+	return f
+}
+
 func TestVerif(t *testing.T) {
 	seed, _ := strconv.ParseUint(os.Getenv("VERIF_SEED"), 10, 64)
 	n, _ := strconv.Atoi(os.Getenv("VERIF_N"))
@@ -992,6 +1112,89 @@ func TestVerif(t *testing.T) {
 			viol("embed-fs-table", msg, vrec{ID: fmt.Sprintf("s%05d", i), In: toOut(files)})
 		}
 		g.classes["fs:synthetic"]++
+	}
+
+	// ---- multi-file packages: the embed import is a per-file requirement ----
+	nm, _ := strconv.Atoi(os.Getenv("VERIF_NM"))
+	mfRoot := filepath.Join(base, "mf", "m")
+	os.MkdirAll(mfRoot, 0o755)
+	os.WriteFile(filepath.Join(mfRoot, "go.mod"), []byte("module vm\n\ngo 1.24\n"), 0o644)
+	for i := 0; i < nm; i++ {
+		id := fmt.Sprintf("mf%05d", i)
+		pkgDir := filepath.Join(mfRoot, id)
+		tree := &vnode{K: "d", E: []vent{
+			{N: "a.txt", V: &vnode{K: "f", D: hex.EncodeToString([]byte("A" + id))}},
+			{N: "b.txt", V: &vnode{K: "f", D: hex.EncodeToString([]byte("bee"))}},
+			{N: "d", V: &vnode{K: "d", E: []vent{{N: ".h", V: &vnode{K: "f", D: "00"}}, {N: "c.txt", V: &vnode{K: "f", D: hex.EncodeToString([]byte("sea"))}}}}},
+			{N: "x.bin", V: &vnode{K: "f", D: "ff00"}},
+		}}
+		nf := 2 + g.r.n(2)
+		var mfs []mfFile
+		for k := 0; k < nf; k++ {
+			f := g.mfFile(k, k < 2)
+			if i%4 == 0 && k < 2 {
+				// the boundary pair: exactly one of the first two files imports embed
+				f = g.mfFile(k, true)
+				for f.Imp != (k == (i/4)%2) {
+					f = g.mfFile(k, true)
+				}
+			}
+			mfs = append(mfs, f)
+			tree.E = append(tree.E, vent{N: f.Name, V: &vnode{K: "f", D: hex.EncodeToString([]byte(f.src))}})
+		}
+		sort.Slice(tree.E, func(a, b int) bool { return tree.E[a].N < tree.E[b].N })
+		if err := g.mk(pkgDir, tree); err != nil {
+			t.Fatalf("materialise %s: %v", id, err)
+		}
+		for _, order := range []string{"fwd", "rev"} {
+			seq := append([]mfFile{}, mfs...)
+			if order == "rev" {
+				for a, b := 0, len(seq)-1; a < b; a, b = a+1, b-1 {
+					seq[a], seq[b] = seq[b], seq[a]
+				}
+			}
+			fset := token.NewFileSet()
+			var afs []*ast.File
+			for _, f := range seq {
+				af, perr := parser.ParseFile(fset, filepath.Join(pkgDir, f.Name), nil, parser.ParseComments)
+				if perr != nil {
+					t.Fatalf("generated source does not parse: %v\n%s", perr, f.src)
+				}
+				afs = append(afs, af)
+			}
+			vm, lerr := LoadDirectives(fset, afs)
+			rec := vrec{Kind: "mf", ID: id, Order: order, Tree: tree, MFiles: seq, EClass: loadClass(lerr)}
+			if lerr != nil {
+				rec.Err = lerr.Error()
+			} else {
+				for _, f := range seq {
+					for _, d := range f.Decls {
+						for _, sp := range d.Specs {
+							if vd, ok := vm[sp.Names[0]]; ok && len(sp.Names) == 1 {
+								rec.Vars = append(rec.Vars, mfVar{Name: sp.Names[0], Files: toOut(vd.Files)})
+							}
+						}
+					}
+				}
+				if len(rec.Vars) != len(vm) {
+					viol("embed-loaddirectives-unexpected-var", "LoadDirectives returns variables that carry no directive", vrec{ID: id})
+				}
+			}
+			enc.Encode(rec)
+			// property: every variable accepted with a directive lives in a file that imports embed
+			if lerr == nil {
+				for _, f := range seq {
+					for _, d := range f.Decls {
+						for _, sp := range d.Specs {
+							if _, ok := vm[sp.Names[0]]; ok && !f.Imp {
+								viol("embed-directive-without-import-accepted", "LoadDirectives accepts the directive of "+sp.Names[0]+" in "+f.Name+", which does not import embed", vrec{ID: id, Order: order, MFiles: seq})
+							}
+						}
+					}
+				}
+			}
+		}
+		g.classes["mf:packages"]++
 	}
 
 	// ---- directive stream: comment text -> patterns ----
